@@ -298,6 +298,7 @@ def check(P, R):
     # ---- d
     c09.check_shared_writes(P, R, 'C08.d', strict=True, same_for_all_threads_ok=True, skip_config_time=True, pure_memo_ok=True)
     check_shared_slots(P, R, 'C08.d')
+    check_request_copy(P, R, 'C08.d', 'nothing of one in-flight request is observable by another')
     # the error objects kept in errors_map are single instances for all threads: the request path only reads them
     from ..report import Sub as _Sub8
     c09.check_error_objects_read_only(P, _Sub8(R, why='an error object shared by all threads is not written while one of them renders it'), 'C08.d')
@@ -316,6 +317,47 @@ def check(P, R):
         def __getattr__(self, k):
             return getattr(self._R, k)
     c09.check_apply(P, _SubApply(R))
+
+
+def check_request_copy(P, R, rid, why):
+    """request.copy() builds its own request from a copy of the environ and the configuration: nothing else of the original travels - the other slots of
+    the long-lived request object (its listener table) are shared by every thread that serves through it"""
+    f = P.maybe_func('ombott.request_pkg.request:BaseRequest.copy')
+    if f is None:
+        return
+    allowed = {'environ', 'config', '__class__'}
+    reads = [x for x in walk_shallow(f.node) if isinstance(x, ast.Attribute) and isinstance(x.value, ast.Name) and x.value.id == 'self' and isinstance(x.ctx, ast.Load)]
+    bad = [x for x in reads if x.attr not in allowed]
+    for x in bad:
+        R.ob(rid, f, stmt_of(x) or x, False, text=f'copy() takes only the environ (copied) and the configuration from the original', detail=
+             f'copy() reads `self.{x.attr}` of the original into the copy (`{short(stmt_of(x) or x)}`): the containers in it are the very objects of the application-wide '
+             f'request - whatever is registered on the private copy afterwards (a listener) is called for, and with the data of, every other request served at the same time',
+             why=why, key_extra=f'copy-takes:{x.attr}')
+    # ... and the original is left as it was: copy() only reads it
+    MUT = {'pop', 'popitem', 'clear', 'update', 'setdefault', 'append', 'extend', 'remove', 'insert', '__setitem__', '__delitem__', 'add', 'discard'}
+    for st in walk_shallow(f.node):
+        hit = None
+        if isinstance(st, ast.Call) and isinstance(st.func, ast.Attribute) and st.func.attr in MUT and (dotted(st.func.value) or '').startswith('self.'):
+            hit = st
+        elif isinstance(st, (ast.Assign, ast.AugAssign, ast.Delete)):
+            tg = st.targets if isinstance(st, (ast.Assign, ast.Delete)) else [st.target]
+            for t in tg:
+                b = t
+                while isinstance(b, (ast.Attribute, ast.Subscript)):
+                    b = b.value
+                if isinstance(t, (ast.Attribute, ast.Subscript)) and isinstance(b, ast.Name) and b.id == 'self':
+                    hit = st
+        if hit is not None:
+            R.ob(rid, f, hit, False, text='copy() leaves the original request as it was', detail=
+                 f'`{short(hit)}` changes the request that is being copied: the handler that asked for a copy (e.g. to call a nested application) finds its own parsed query / '
+                 f'forms / cookies gone or rebuilt afterwards - edits it had made in place are lost',
+                 why=why, key_extra='copy-mutates-original')
+    # the environ itself must be copied, not shared
+    env_reads = [x for x in reads if x.attr == 'environ']
+    shared = [x for x in env_reads if (isinstance(getattr(x, '_p', None), ast.Call) and x in x._p.args and dotted(x._p.func) not in ('dict', 'copy.copy', 'copy'))
+              or (isinstance(getattr(x, '_p', None), ast.keyword)) or (isinstance(getattr(x, '_p', None), ast.Assign) and x._p.value is x)]
+    R.ob(rid, f, shared[0] if shared else f.node, not shared, text='copy(): the environ is copied, not shared',
+         detail='' if not shared else f'copy() hands the original environ itself to the new request', why=why, key_extra='copy-environ', nontrivial=False)
 
 
 def check_shared_slots(P, R, rid):
